@@ -45,6 +45,6 @@ pub open spec fn pair_edit1(rtext: &TextRef, qtext: &TextRef, j: int, p: int) ->
     && (is_sub(tchars(rtext, j), tchars(qtext, 0), p) || is_ins(tchars(rtext, j), tchars(qtext, 0), p) || is_del(tchars(rtext, j), tchars(qtext, 0), p) || is_trans(tchars(rtext, j), tchars(qtext, 0), p))
 }
 pub open spec fn tm_some(rtext: &TextRef, qtext: &TextRef, ret: (Vec<WordMatch>, Vec<WordMatch>)) -> bool {
-    ((exists|j: int| #[trigger] pair_prefix(rtext, qtext, j) || pair_equal(rtext, qtext, j)) ==> ret.0@.len() >= 1)
+    ((exists|j: int| #![trigger pair_prefix(rtext, qtext, j)] #![trigger pair_equal(rtext, qtext, j)] pair_prefix(rtext, qtext, j) || pair_equal(rtext, qtext, j)) ==> ret.0@.len() >= 1)
     && ((exists|j: int, p: int| #[trigger] pair_edit1(rtext, qtext, j, p)) ==> ret.0@.len() >= 1)
 }
